@@ -1876,3 +1876,20 @@ Qed.
 Lemma select_in_set_order_refuted_proof : exists n en en', (forall x, In x en <-> In x en') /\
   select_in_set_order n en <> select_in_set_order n en' /\ select_rules n en = select_rules n en'.
 Proof. exists 5, [3; 1], [1; 3]. split; [intros x; cbn; tauto|]. split; [vm_compute; discriminate|reflexivity]. Qed.
+
+
+(* ---------- SecMetQualifier.add_domains: the order of the stored domains is the order of first mention ---------- *)
+Lemma add_domains_step held d :
+  add_domains held [d] = if existsb (Z.eqb d) held then held else held ++ [d].
+Proof. reflexivity. Qed.
+
+Lemma add_domains_app held a b : add_domains held (a ++ b) = add_domains (add_domains held a) b.
+Proof. unfold add_domains. apply fold_left_app. Qed.
+
+(* one call with the batches concatenated gives what the history of calls gives: nothing but the order of mention counts *)
+Lemma add_domains_history_concat : forall batches held,
+  fold_left add_domains batches held = add_domains held (concat batches).
+Proof.
+  induction batches as [|b bs IH]; intros held; cbn [fold_left concat]; [reflexivity|].
+  rewrite IH, add_domains_app. reflexivity.
+Qed.
